@@ -256,6 +256,20 @@ IMPL_TABLES = [
     ("tbl_fb_reader", "multiboot2/src/framebuffer.rs", r"impl<'a>\s+Reader<'a>"),
     ("tbl_module_free", "multiboot2/src/module.rs", r"^$"),
     ("tbl_maybe_dyn_sized", "multiboot2-common/src/tag.rs", r"trait\s+MaybeDynSized\b"),
+    ("tbl_tag_iter", "multiboot2-common/src/iter.rs", r"impl<'a,\s*H:\s*Header>\s+TagIter<'a,\s*H>"),
+    ("tbl_apm", "multiboot2/src/apm.rs", r"impl\s+ApmTag\b"),
+    ("tbl_bootdev", "multiboot2/src/bootdev.rs", r"impl\s+BootdevTag\b"),
+    ("tbl_cmdline", "multiboot2/src/command_line.rs", r"impl\s+CommandLineTag\b"),
+    ("tbl_efi_sdt32", "multiboot2/src/efi.rs", r"impl\s+EFISdt32Tag\b"),
+    ("tbl_efi_sdt64", "multiboot2/src/efi.rs", r"impl\s+EFISdt64Tag\b"),
+    ("tbl_efi_ih32", "multiboot2/src/efi.rs", r"impl\s+EFIImageHandle32Tag\b"),
+    ("tbl_efi_ih64", "multiboot2/src/efi.rs", r"impl\s+EFIImageHandle64Tag\b"),
+    ("tbl_load_base", "multiboot2/src/image_load_addr.rs", r"impl\s+ImageLoadPhysAddrTag\b"),
+    ("tbl_meminfo", "multiboot2/src/memory_map.rs", r"impl\s+BasicMemoryInfoTag\b"),
+    ("tbl_efi_iter_inherent", "multiboot2/src/memory_map.rs", r"impl<'a>\s+EFIMemoryAreaIter<'a>"),
+    ("tbl_network", "multiboot2/src/network.rs", r"impl\s+NetworkTag\b"),
+    ("tbl_tag_type", "multiboot2/src/tag_type.rs", r"impl\s+TagType\b"),
+    ("tbl_vbe", "multiboot2/src/vbe_info.rs", r"impl\s+VBEInfoTag\b"),
     ("tbl_dyn", "multiboot2-common/src/lib.rs", r"impl<H:\s*Header>\s+DynSizedStructure<H>"),
 ]
 
